@@ -19,6 +19,9 @@ Lemma reduce_shift_agrees : Constants.REDUCE_SHIFT = Pinned.REDUCE_SHIFT. Proof.
 (** The library proper uses no blocking construct (mutex, once, condvar, barrier, sleep,
     park, advisory file lock, join, channel): scanned from the current source. *)
 Lemma no_blocking_primitive : Constants.BLOCKING_PRIMITIVES = nil. Proof. reflexivity. Qed.
+(* the one unbounded loop of the library: trigger.rs redraws until the random source yields a
+   non-zero value (modelled: zero draws never occur, C10's assumption) *)
+Lemma the_unbounded_loops : Constants.UNBOUNDED_LOOPS = ("trigger.rs:loop"%string :: nil). Proof. reflexivity. Qed.
 
 (** Side conditions on constants the properties leave free. *)
 Lemma delta_covers_granularity : (2 <= Constants.DELTA_SEC)%Z. Proof. unfold Constants.DELTA_SEC. lia. Qed.
